@@ -6,6 +6,7 @@ package main
 
 import (
 	"bytes"
+	"context"
 	"encoding/json"
 	"fmt"
 	"io"
@@ -18,6 +19,7 @@ import (
 	"sort"
 	"strconv"
 	"strings"
+	"time"
 
 	"rivaas.dev/app"
 	riverrors "rivaas.dev/errors"
@@ -68,6 +70,9 @@ type acaseT struct {
 	PreAt int     `json:",omitempty"`
 	// AbortFirst: the failing handler calls c.Abort() itself before it fails (guard style)
 	AbortFirst bool `json:",omitempty"`
+	// CtxDone: the request's context becomes done inside the failing handler before it fails
+	// (1 cancelled, 2 deadline exceeded) — a backend call timed out, the handler answers 504
+	CtxDone int `json:",omitempty"`
 	// Tail: a last path segment captured by a :tail parameter, any bytes but '/' (percent-encoded on
 	// the wire); it reaches the body through req.URL.Path (RFC 9457 `instance`)
 	Tail bstr `json:",omitempty"`
@@ -272,6 +277,16 @@ func handlerAt(i int) app.HandlerFunc {
 		if i == k.Pos {
 			if k.AbortFirst {
 				c.Abort()
+			}
+			switch k.CtxDone {
+			case 1:
+				ctx, cancel := context.WithCancel(c.Request.Context())
+				c.Request = c.Request.WithContext(ctx)
+				cancel()
+			case 2:
+				ctx, cancel := context.WithDeadline(c.Request.Context(), time.Unix(1, 0))
+				c.Request = c.Request.WithContext(ctx)
+				defer cancel()
 			}
 			switch k.Call.Kind {
 			case "fail":
@@ -816,6 +831,7 @@ func lineA(id string, k acaseT, o obsT, answers []string, st *hx.Stats) string {
 		l.Bool(false)
 	}
 	l.Bool(k.AbortFirst)
+	l.Bool(k.CtxDone != 0)
 	l.Nat(k.Pos)
 	l.Tok(strings.TrimSpace(el.String()))
 	in := l.String()
@@ -858,6 +874,9 @@ func lineA(id string, k acaseT, o obsT, answers []string, st *hx.Stats) string {
 		}
 		if k.AbortFirst {
 			st.Count("fail_after_abort")
+		}
+		if k.CtxDone != 0 {
+			st.Count("fail_with_context_done")
 		}
 	}
 	return l.String()
